@@ -19,14 +19,18 @@ import random
 
 from harness import framework, tlc, c06rv, c06x86
 
+# development switch for a crowded machine: TLC runs with more than two workers need three of the machine-wide slots of
+# harness/tlc.py and can starve; C06_WORKERS=2 makes the model-checking / generator runs take one slot each
+WORKERS = int(os.environ["C06_WORKERS"]) if os.environ.get("C06_WORKERS") else None
+
 
 def rv_model(ctx, quick):
     for cfg in (["RVMC.cfg", "RVMC16.cfg"] if quick else ["RVMC_thorough.cfg", "RVMC16_thorough.cfg"]):
-        res = tlc.run("RV", cfg, coverage=not quick, tag="c06rvmc", timeout=6000)
+        res = tlc.run("RV", cfg, coverage=not quick, tag="c06rvmc", timeout=6000, workers=WORKERS)
         ctx.add_tlc(res, "M:" + cfg)
     seen = {}
     for cfg, inv in (("RVMC_dev_jalr.cfg", "IntSem"), ("RVMC_dev_store.cfg", "MemFrame"), ("RVMC_dev_cmp.cfg", "IntSem")):
-        res = tlc.run("RV", cfg, expect_violation=True, tag="c06rvdev", timeout=3000)
+        res = tlc.run("RV", cfg, expect_violation=True, tag="c06rvdev", timeout=3000, workers=WORKERS)
         if not res.violation or inv not in res.violation:
             raise tlc.MachineryError("self-test: seeded fault of %s did not violate %s (invariant vacuous?): %s"
                                      % (cfg, inv, res.violation))
@@ -34,12 +38,15 @@ def rv_model(ctx, quick):
     ctx.note("rv_selftest_faults_detected_by_model", seen)
 
 
-def rv_generate(ctx, xlen, cfg, kind, simulate=None, depth=None):
+def rv_generate(ctx, xlen, cfg, kind, total=None, depth=None):
+    """total: number of behaviours to simulate (TLC's -simulate num=N is per worker), None: exhaustive BFS"""
     wd = tlc.workdir("c06rvg_%s%d" % (kind, xlen))
     spool = os.path.join(wd, "beh.spool")
-    extra = () if simulate else ("-seed", str(ctx.seed))
+    extra = () if total else ("-seed", str(ctx.seed))
+    nw = WORKERS or tlc.NCPU
+    simulate = ("num=%d" % max(1, -(-total // nw))) if total else None
     res = tlc.run("RV", cfg, simulate=simulate, depth=depth, seed=ctx.seed if simulate else None, spool=spool,
-                  tag="c06rvg%d" % xlen, timeout=6000, extra=extra)
+                  tag="c06rvg%d" % xlen, timeout=6000, extra=extra, workers=nw)
     ctx.add_tlc(res, "G:" + cfg)
     chunks = tlc.spool_chunks(spool, 4 * tlc.NCPU)
     jobs = [(spool, lo, hi, ctx.seed) for lo, hi in chunks]
@@ -109,20 +116,21 @@ def rv_traces(ctx, xlen, ntraces, nsteps):
 
 def run_riscv(ctx):
     quick = ctx.tier == "quick"
-    rv_model(ctx, quick)
-    for xlen in (32, 64):
-        rv_generate(ctx, xlen, "RVGen%d.cfg" % xlen, "sim", simulate="num=%d" % (1200 if quick else 20000), depth=8)
+    if not os.environ.get("C06_SKIP_M"):        # development switch (mutation experiments on amoco only)
+        rv_model(ctx, quick)
+    for xlen in ([int(os.environ["C06_XLEN"])] if os.environ.get("C06_XLEN") else [32, 64]):   # C06_XLEN: development switch
+        rv_generate(ctx, xlen, "RVGen%d.cfg" % xlen, "sim", total=1600 if quick else 48000, depth=8)
         if not quick:
             rv_generate(ctx, xlen, "RVGen%d_grid.cfg" % xlen, "grid")
-        rv_traces(ctx, xlen, 160 if quick else 6000, 6 if quick else 8)
+        rv_traces(ctx, xlen, 120 if quick else 6000, 6 if quick else 8)
 
 
 # ------------------------------------------------------------------------------------------------------------
 # x86-64 / IA-32
 def x86_model(ctx, quick):
-    res = tlc.run("X86MC", "X86MC.cfg" if quick else "X86MC_thorough.cfg", tag="c06x86mc", timeout=6000)
+    res = tlc.run("X86MC", "X86MC.cfg" if quick else "X86MC_thorough.cfg", tag="c06x86mc", timeout=6000, workers=WORKERS)
     ctx.add_tlc(res, "M:X86MC")
-    res = tlc.run("X86MC", "X86MC_dev.cfg", expect_violation=True, tag="c06x86dev", timeout=3000)
+    res = tlc.run("X86MC", "X86MC_dev.cfg", expect_violation=True, tag="c06x86dev", timeout=3000, workers=WORKERS)
     if not res.violation or "Flags8" not in res.violation:
         raise tlc.MachineryError("self-test: the seeded overflow-formula fault did not violate Flags8: %s" % res.violation)
     ctx.note("x86_selftest_fault_detected_by_model", res.violation)
@@ -130,7 +138,7 @@ def x86_model(ctx, quick):
 
 def x86_forms(ctx):
     """G: TLC enumerates the forms; their bytes come from the vendored llvm-mc table"""
-    res = tlc.run("X86Gen", "X86Gen.cfg", tag="c06x86gen", timeout=6000)
+    res = tlc.run("X86Gen", "X86Gen.cfg", tag="c06x86gen", timeout=6000, workers=WORKERS)
     ctx.add_tlc(res, "G:X86Gen.cfg")
     enc = c06x86.load_enc()
     forms = {}
@@ -175,7 +183,8 @@ def x86_batch(ctx, vectors, cpus, source):
 
 def run_x86(ctx):
     quick = ctx.tier == "quick"
-    x86_model(ctx, quick)
+    if not os.environ.get("C06_SKIP_M"):
+        x86_model(ctx, quick)
     forms, enc = x86_forms(ctx)
     rng = random.Random(ctx.seed * 9176 + 11)
     # (i) + (ii) on the vendored processor executions
@@ -215,8 +224,11 @@ def run_x86(ctx):
 def run_replay(ctx):
     """./check C06 --replay PATH: re-execute the recorded case on the current tree and let TLC judge it again"""
     import json
-    with open(ctx.replay) as f:
-        case = json.load(f)["case"]
+    if REPLAY_CASE is not None:
+        case = REPLAY_CASE
+    else:
+        with open(ctx.replay) as f:
+            case = json.load(f)["case"]
     isa = case["isa"]
     if isa.startswith("rv"):
         xlen = int(isa[2:])
@@ -258,5 +270,15 @@ def run(ctx):
     ctx.exhaustive = False
 
 
+REPLAY_CASE = None
+
 if __name__ == "__main__":
+    # the framework discards the replay files of earlier runs when it starts: read ours first
+    if "--replay" in sys.argv:
+        import json
+        try:
+            with open(sys.argv[sys.argv.index("--replay") + 1]) as _f:
+                REPLAY_CASE = json.load(_f)["case"]
+        except (OSError, ValueError, IndexError, KeyError):
+            REPLAY_CASE = None
     sys.exit(framework.main("C06", run))
